@@ -23,6 +23,11 @@ TRUSTED = [
     'numpy semantics exercised, not modelled: ndarray.sum/copy/flatten/argsort/roll/nonzero, fancy indexing, float->integer truncation on store, '
     'np.median; scipy.signal.medfilt/medfilt2d modelled as zero-padded window medians',
     'exact rationals stand for IEEE doubles: inputs are short dyadic rationals, results compared at 1e-12 (float64) / 1e-5 (float32) / exactly (integers, medians, uniq)',
+    'non-finite / near-overflow data (round 6): decided on the Python side by judge_nonfinite -- the rule of the property evaluated with exact Fractions '
+    'for finite samples and Python float arithmetic (IEEE 754) for +-inf / NaN; window sums beyond the largest finite number of the type are +-inf '
+    '(all huge samples of one array share a sign, so every summation order agrees); not part of the Coq model (Q has no infinities)',
+    'process-global state: np.geterr / np.geterrcall / np.get_printoptions / warnings.filters / os.environ compared before and after `import pydl` '
+    '(numpy, scipy, astropy imported first) in every fresh runner process and after every call; the runner does not override numpy error handling',
     'Coq stdlib ZArith, QArith, Lia, Lqa (theorems closed under the global context)',
 ]
 ASSUMPTIONS = [
@@ -30,6 +35,8 @@ ASSUMPTIONS = [
     '(smooth is 1-D code and raises IndexError there) -- observed only, both import routes must agree',
     'smooth: float64 input, scalar integer width; bit-exact comparison (every output sample = the double nearest to the exact mean) for arrays whose window sums are exact in doubles, 1e-12 relative otherwise; the specification (clamped boxcar) is claimed for widths not exceeding the length '
     '(owidth <= n, as the property says); for wider windows with edge_truncate the code is NOT a clamped boxcar (model M still corresponds)',
+    'non-finite data: +inf / -inf anywhere (all four functions), NaN in smooth and rebin only (IDL medians treat NaN as missing data, numpy does not: outside); '
+    'near-overflow values only where the exact window / block sum is clearly below or clearly above the largest finite number; expansion of near-overflow data not generated',
     'median: float64 input without NaN; running median for odd 1 <= width <= length (1-D) / odd 1 <= width <= number of elements (2-D, incl. one-row / one-column images: no interior point, unchanged); an even kernel min(width, size) raises ValueError in scipy (modelled: C14_median_filter1_rejects; outside the property); 3-D with a width -> ValueError',
     'uniq: non-empty input; with an index: subscripts in range; the specification is claimed for input sorted ascending (through the index); '
     'for a constant array with an index the result is [n-1] as in IDL uniq.pro (not index[n-1])',
@@ -496,7 +503,7 @@ def gen_histories(ctx, calls):
                 {'f': 'rebin', 'd': [rng.choice(divs)], 'sample': bool(rng.getrandbits(1))},
                 {'f': 'uniq'},
             ]
-            layout = rng.choice(['c', 'c', 'c', 'strided', 'rev'])
+            layout = rng.choice(['c', 'c', 'c', 'strided', 'rev', 'be'])
         else:
             r, c = rng.choice([2, 3, 4, 6]), rng.choice([2, 4, 5, 6])
             xs = reshape(values(rng, r * c, rng.choice(['dyadic', 'few'])), (r, c))
@@ -507,10 +514,21 @@ def gen_histories(ctx, calls):
                 {'f': 'rebin', 'd': [r, c], 'sample': False}, {'f': 'rebin', 'd': [r * 2, c], 'sample': False},
                 {'f': 'rebin', 'd': [r, c * 3], 'sample': True},
             ]
-            layout = rng.choice(['c', 'c', 'f', 't', 'strided'])
+            layout = rng.choice(['c', 'c', 'f', 't', 'strided', 'be'])
         steps = [dict(rng.choice(pool)) for _ in range(rng.randint(3, 6))]
         if rep % 2 == 0:
             steps.insert(0, {'f': 'median', 'even': False})      # a plain median first, then everything else
+        if rep % 3 != 1:
+            # the CALLER refills the same buffer in place between calls (x[...] = new / x += delta); the steps after it
+            # repeat earlier calls and must answer for the NEW contents (nothing may be remembered per array object)
+            shp = shape_of(xs)
+            nn = 1
+            for a_ in shp:
+                nn *= a_
+            new = reshape(values(rng, nn, rng.choice(['dyadic', 'few', 'spike'])), shp)
+            k_ = rng.randint(1, len(steps))
+            steps = steps[:k_] + [{'f': 'mutate', 'x': new, 'how': rng.choice(['assign', 'iadd'])}] + \
+                [dict(st) for st in steps[:k_]][-3:] + steps[k_:]
         calls.append(('history', {'f': 'history', 'x': xs, 'dtype': 'f8', 'layout': layout, 'steps': steps}))
 
 
@@ -639,8 +657,302 @@ def gen_anyrank(ctx, calls):
                 d = d + [1]
         calls.append(('rebinN-rejected', {'f': 'rebin', 'x': x, 'dtype': 'f8', 'd': d, 'sample': False, 'anyrank': True}))
 
-LAYOUTS_1D = ['c', 'c', 'c', 'strided', 'rev', 'ro']
-LAYOUTS_ND = ['c', 'c', 'f', 't', 'strided', 'ro']
+# ---------------------------------------------------------------- non-finite and near-overflow data (IEEE 754)
+
+INF = float('inf')
+TOK = {'inf': INF, '-inf': -INF, 'nan': float('nan')}
+FMAX = {'f8': fractions.Fraction(1.7976931348623157e308), 'f4': fractions.Fraction(3.4028234663852886e38)}
+
+
+def fval(v):
+    return TOK[v] if isinstance(v, str) else float(v)
+
+
+def is_nan(v):
+    return v != v
+
+
+def ev(v):
+    """value of the reference evaluator: exact Fraction for a finite sample, float for inf / -inf / nan"""
+    if isinstance(v, fractions.Fraction):
+        return v
+    v = fval(v)
+    return v if (v != v or abs(v) == INF) else fractions.Fraction(v)
+
+
+def ext_sum(vals, dt):
+    """IEEE sum of a window, whatever the order of the additions: NaN if a NaN is present or both infinities are;
+    an infinity if one is present; otherwise the exact sum, +-inf if it exceeds the largest finite number of the
+    type (the generated arrays keep all huge samples of one array on the same sign, so that every order of partial
+    sums overflows or none does)"""
+    nf = [v for v in vals if isinstance(v, float)]
+    if any(is_nan(v) for v in nf) or (INF in nf and -INF in nf):
+        return float('nan')
+    if nf:
+        return nf[0]
+    s_ = sum(vals)
+    if abs(s_) > FMAX[dt]:
+        return INF if s_ > 0 else -INF
+    return s_
+
+
+def ext_div(s_, k):
+    return s_ if isinstance(s_, float) else s_ / k
+
+
+def ieee_smooth(xs, w, et, dt):
+    """the property's rule evaluated in IEEE arithmetic: centred boxcar mean of the width made odd; edge samples
+    untouched, or (edge_truncate) out-of-range samples replaced by the nearest edge value"""
+    wodd = w + 1 if w % 2 == 0 else w
+    n = len(xs)
+    if wodd < 3:
+        return list(xs)
+    h = wodd // 2
+    out = list(xs)
+    for i in range(n):
+        if h <= i <= n - 1 - h or et:
+            out[i] = ext_div(ext_sum([xs[min(max(j, 0), n - 1)] for j in range(i - h, i + h + 1)], dt), wodd)
+    return out
+
+
+def ieee_rebin_axis(xs, d, sample, dt):
+    """IDL's rule along one axis on a list of samples: integer-factor block mean / x0 + frac*(x1 - x0) with the last
+    sample held / nearest-neighbour picks"""
+    d0 = len(xs)
+    if d == d0:
+        return list(xs)
+    if d > d0:
+        m = d // d0
+        out = []
+        for i in range(d):
+            lo = i // m
+            if sample or lo >= d0 - 1:
+                out.append(xs[lo])
+                continue
+            x0, x1 = xs[lo], xs[lo + 1]
+            fr = fractions.Fraction(i % m, m)
+            if isinstance(x0, float) or isinstance(x1, float):
+                # IEEE: x0 + frac*(x1 - x0) with Python floats (which follow IEEE 754 silently): 0*inf = nan etc.
+                out.append(ev(float(x0) + float(fr) * (float(x1) - float(x0))))
+            else:
+                out.append(x0 + fr * (x1 - x0))      # near-overflow data are not generated for expansion
+        return out
+    f = d0 // d
+    if sample:
+        return [xs[f * i] for i in range(d)]
+    return [ext_div(ext_sum(xs[f * i:f * (i + 1)], dt), f) for i in range(d)]
+
+
+def along_axis(x, k, fn):
+    """apply fn to every 1-D line along axis k of a nested list"""
+    if k == 0:
+        if not isinstance(x[0], list):
+            return fn(x)
+        # transpose the leading axis inwards
+        cols = [along_axis([row[j] for row in x], 0, fn) for j in range(len(x[0]))]
+        return [[cols[j][i] for j in range(len(cols))] for i in range(len(cols[0]))]
+    return [along_axis(row, k - 1, fn) for row in x]
+
+
+def ieee_rebin(x, d, sample, dt):
+    out = x
+    for k in range(len(d)):
+        out = along_axis(out, k, lambda line, k=k: ieee_rebin_axis(line, d[k], sample, dt))
+    return out
+
+
+def ext_key(v):
+    return (0, 0) if v == -INF else ((2, 0) if v == INF else (1, v))        # no NaN in the median families
+
+
+def ieee_median(xs, even):
+    s_ = sorted(xs, key=ext_key)
+    n = len(s_)
+    if n % 2 == 1 or not even:
+        return s_[n // 2]
+    a, b = s_[n // 2 - 1], s_[n // 2]
+    if isinstance(a, float) or isinstance(b, float):
+        return (float(a) + float(b)) / 2.0           # Python floats: -inf + inf = nan, inf + x = inf
+    return (a + b) / 2
+
+
+def ieee_medfilt1(xs, w):
+    n = len(xs)
+    h = w // 2
+    return [sorted(xs[i - h:i + h + 1], key=ext_key)[h] if h <= i <= n - 1 - h else xs[i] for i in range(n)]
+
+
+def ieee_medfilt2(x, w):
+    r_, c_ = len(x), len(x[0])
+    h = w // 2
+    out = [list(row) for row in x]
+    for i in range(h, r_ - h):
+        for j in range(h, c_ - h):
+            win = [x[a][b] for a in range(i - h, i + h + 1) for b in range(j - h, j + h + 1)]
+            out[i][j] = sorted(win, key=ext_key)[len(win) // 2]
+    return out
+
+
+def ieee_uniq(xs):
+    n = len(xs)
+    out = [i for i in range(n) if xs[i] != xs[(i + 1) % n]]
+    return out or [n - 1]
+
+
+def same_ext(got, want, rel):
+    """got: implementation's sample (float or token); want: IEEE expectation (non-finite float, or exact Fraction)"""
+    g = fval(got)
+    if isinstance(want, float):
+        return (is_nan(g) and is_nan(want)) or g == want
+    if is_nan(g) or abs(g) == INF:
+        return False
+    return abs(fractions.Fraction(g) - want) <= rel * max(1, abs(want))
+
+
+def judge_nonfinite(c, r):
+    """-> None (the result is what IEEE arithmetic gives for the property's rule) or a description of the problem"""
+    f = c['f']
+    dt = c.get('dtype', 'f8')
+    if 'ok' not in r:
+        return '%s raised %s on data with non-finite / near-overflow samples (IEEE arithmetic gives a result)' % (f, r.get('err'))
+    if not protected(r):
+        return '%s: argument modified / read-only copy / other import route / global state differ (%s)' % (
+            f, [k for k in ('input_unchanged', 'readonly_ok', 'route_ok') if r.get(k) is False] + list(r.get('state_changed', [])))
+    x = c['x']
+    xv = [ev(v) for v in flatten(x)]
+    rel = fractions.Fraction(1, 10 ** 12) if dt == 'f8' else fractions.Fraction(1, 10 ** 5)
+    if f == 'smooth':
+        want = ieee_smooth(xv, c['w'], bool(c['et']), dt)
+    elif f == 'rebin':
+        want = flatten(ieee_rebin(reshape(xv, shape_of(x)), c['d'], c['sample'], dt))
+        if r['shape'] != list(c['d']) or r['dtype'] != NP_NAME[dt]:
+            return 'rebin returned shape %s dtype %s, requested %s of %s' % (r['shape'], r['dtype'], c['d'], NP_NAME[dt])
+    elif f == 'median':
+        want = [ieee_median(xv, c['even'])]
+    elif f == 'medfilt':
+        want = ieee_medfilt1(xv, c['w']) if ndim(x) == 1 else flatten(ieee_medfilt2(reshape(xv, shape_of(x)), c['w']))
+    elif f == 'uniq':
+        want = ieee_uniq(xv)
+        return None if r['ok'] == want else 'uniq returned %s, the runs end at %s' % (r['ok'], want)
+    else:
+        raise ValueError(f)
+    got = flatten(r['ok']) if isinstance(r['ok'], list) else [r['ok']]
+    if len(got) != len(want):
+        return '%s returned %d samples, expected %d' % (f, len(got), len(want))
+    badk = [k for k, (g, w_) in enumerate(zip(got, want)) if not same_ext(g, w_, rel)]
+    if badk:
+        k = badk[0]
+        return '%s differs from the IEEE result of the rule at flat subscripts %s: got %s, expected %s' % (
+            f, badk[:6], got[k], want[k] if isinstance(want[k], float) else float(want[k]))
+    return None
+
+
+def spoil(rng, vals, dt, nan_ok=True):
+    """put non-finite / near-overflow samples into a list of ordinary values -> (values with tokens, kind)"""
+    n = len(vals)
+    v = list(vals)
+    kind = rng.choice(['inf', '-inf', 'both', 'both-near', 'two-inf', 'nan', 'nan+inf', 'huge', 'huge'] if nan_ok else
+                      ['inf', '-inf', 'both', 'both-near', 'two-inf', 'huge'])
+    big = {'f8': 1.5e308, 'f4': 3.0e38}[dt]
+    if kind == 'huge':
+        sgn = rng.choice([-1, 1])
+        k0 = rng.randrange(n)
+        for j in range(k0, min(n, k0 + rng.choice([1, 2, 2, 3]))):
+            v[j] = sgn * big
+        if rng.random() < 0.5:
+            v[rng.randrange(n)] = sgn * big
+    else:
+        toks = {'inf': ['inf'], '-inf': ['-inf'], 'both': ['inf', '-inf'], 'both-near': ['inf', '-inf'], 'two-inf': ['inf', 'inf'],
+                'nan': ['nan'], 'nan+inf': ['nan', 'inf']}[kind]
+        k0 = rng.randrange(n)
+        for j, t in enumerate(toks):
+            pos = (k0 + j * (rng.choice([1, 2]) if kind in ('both-near', 'two-inf') else rng.randrange(n))) % n
+            v[pos] = t
+        if rng.random() < 0.25:
+            v[rng.choice([0, n - 1])] = toks[0]           # at an edge (edge_truncate replicates it)
+    return v, kind
+
+
+def gen_nonfinite(ctx, calls):
+    """float data with +inf / -inf / NaN pixels or values whose window sum overflows the type, through all four
+    functions.  IEEE 754 says what every output sample is (inf / NaN in the samples whose window holds the bad pixel,
+    the ordinary value everywhere else); the call must RETURN that (numpy's default error state warns and goes on).
+    Judged on the Python side (judge_nonfinite) against the rule of the property evaluated in IEEE arithmetic."""
+    rng = ctx.rng
+    for rep in range(ctx.n(150, 900)):
+        dt = 'f4' if rep % 4 == 3 else 'f8'
+        n = rng.choice([2, 3, 4, 5, 6, 8, 9, 12, 16, 24])
+        base = values(rng, n, rng.choice(['dyadic', 'few', 'ramp']), bits=4)
+        which = rep % 6
+        if which == 0:
+            x, kind = spoil(rng, base, dt)
+            w = rng.randint(2, n) if n > 2 else 2
+            calls.append(('nonfinite-smooth-' + kind, {'f': 'smooth', 'x': x, 'w': w, 'et': bool(rng.getrandbits(1)), 'dtype': dt,
+                                                       'nonfinite': kind}))
+        elif which == 1:
+            x, kind = spoil(rng, base, dt)
+            divs = [k for k in range(1, n) if n % k == 0]
+            d = rng.choice(divs) if divs else n
+            calls.append(('nonfinite-rebin-shrink-' + kind, {'f': 'rebin', 'x': x, 'dtype': dt, 'd': [d], 'sample': rep % 5 == 4,
+                                                             'nonfinite': kind}))
+        elif which == 2:
+            x, kind = spoil(rng, base, dt)
+            if kind == 'huge':
+                x, kind = spoil(rng, base, dt) if False else ([('inf' if abs(fval(v)) > 1e30 else v) for v in x], 'inf')
+            calls.append(('nonfinite-rebin-expand-' + kind, {'f': 'rebin', 'x': x, 'dtype': dt, 'd': [n * rng.choice([2, 3, 4, 8])],
+                                                             'sample': rep % 5 == 4, 'nonfinite': kind}))
+        elif which == 3:
+            r_, c_ = rng.choice([2, 3, 4]), rng.choice([2, 4, 6])
+            x, kind = spoil(rng, values(rng, r_ * c_, 'dyadic', bits=4), dt)
+            if kind == 'huge':
+                x, kind = [('-inf' if abs(fval(v)) > 1e30 else v) for v in x], '-inf'
+            md = [rng.choice(['expand', 'keep', 'shrink']) for _ in range(2)]
+            d = [axis_target(rng, a, m_, False) for a, m_ in zip((r_, c_), md)]
+            calls.append(('nonfinite-rebin2-' + kind, {'f': 'rebin', 'x': reshape(x, (r_, c_)), 'dtype': dt, 'd': d, 'sample': False,
+                                                       'nonfinite': kind}))
+        elif which == 4:
+            x, kind = spoil(rng, base, dt, nan_ok=False)
+            if rep % 12 == 4:
+                x = ['-inf', 'inf'] if rep % 24 == 4 else ['inf', '-inf', 'inf', '-inf']
+                kind = 'both'
+            calls.append(('nonfinite-median-' + kind, {'f': 'median', 'x': x, 'even': bool(rng.getrandbits(1)) or len(x) in (2, 4), 'dtype': dt,
+                                                       'nonfinite': kind}))
+            if n >= 3:
+                calls.append(('nonfinite-medfilt1-' + kind, {'f': 'medfilt', 'x': x, 'w': rng.randrange(1, len(x) + 1, 2), 'dtype': dt,
+                                                             'nonfinite': kind}))
+        else:
+            if (rep // 6) % 2:
+                srt = sorted_runs(rng, n, True)
+                k_lo, k_hi = rng.randint(0, 2), rng.randint(0, 2)
+                x = ['-inf'] * k_lo + srt + ['inf'] * k_hi
+                calls.append(('nonfinite-uniq', {'f': 'uniq', 'x': x, 'dtype': 'f8', 'idx': None, 'nonfinite': 'sorted-inf'}))
+            else:
+                r_, c_ = rng.choice([3, 4, 5]), rng.choice([3, 5, 6])
+                x, kind = spoil(rng, values(rng, r_ * c_, 'dyadic', bits=4), dt, nan_ok=False)
+                calls.append(('nonfinite-medfilt2-' + kind, {'f': 'medfilt', 'x': reshape(x, (r_, c_)), 'w': 3, 'dtype': dt,
+                                                             'nonfinite': kind}))
+
+
+ARGSTYLES = {'smooth': ['npint', 'npint32', 'intflag', 'npbool', 'positional'],
+             'median': ['intflag', 'npbool', 'explicit'],
+             'medfilt': ['npint', 'npint32', 'explicit'],
+             'rebin': ['list', 'npint', 'intflag', 'npbool', 'explicit']}
+
+
+def gen_argstyles(ctx, calls):
+    """the same calls with the scalar / option arguments in the other forms a caller may use: numpy integer widths,
+    int 0/1 or numpy.bool_ flags, keywords given explicitly with their default values, positional edge_truncate,
+    the new shape as a list / tuple of numpy integers.  The answer must not depend on it."""
+    rng = ctx.rng
+    pool = [(t, c) for t, c in calls if c['f'] in ARGSTYLES and not c.get('observe') and not c.get('nonfinite')]
+    for tag, c in rng.sample(pool, min(len(pool), ctx.n(90, 1200))):
+        c2 = dict(c)
+        c2['argstyle'] = rng.choice(ARGSTYLES[c['f']])
+        calls.append((tag, c2))
+
+
+LAYOUTS_1D = ['c', 'c', 'c', 'strided', 'rev', 'ro', 'be']
+LAYOUTS_ND = ['c', 'c', 'f', 't', 'strided', 'ro', 'be']
 
 
 def gen_calls(ctx):
@@ -655,6 +967,8 @@ def gen_calls(ctx):
     gen_degenerate(ctx, calls)
     gen_anyrank(ctx, calls)
     gen_histories(ctx, calls)
+    gen_nonfinite(ctx, calls)
+    gen_argstyles(ctx, calls)
     # memory layout of the array argument: drawn for every call (contiguous / strided view / reversed view /
     # Fortran order / transposed view / read-only)
     for _, c in calls:
@@ -727,7 +1041,8 @@ def rresn_term(r, n):
 
 def protected(r):
     """generic bookkeeping of every call: arguments bit-identical afterwards, same answer on a read-only input"""
-    return bool(r.get('input_unchanged', True)) and bool(r.get('readonly_ok', True)) and bool(r.get('route_ok', True))
+    return (bool(r.get('input_unchanged', True)) and bool(r.get('readonly_ok', True)) and bool(r.get('route_ok', True))
+            and not r.get('state_changed'))
 
 
 def smooth_tols(xs, w, rel):
@@ -769,6 +1084,8 @@ def case_term(c, r):
     dt = c.get('dtype', 'f8')
     if c.get('observe'):
         return None, None          # outside the modelled domain: outcome recorded, both import routes must agree
+    if c.get('nonfinite'):
+        return None, judge_nonfinite(c, r)      # IEEE expectations, decided on the Python side
     if f == 'smooth':
         if 'ok' not in r:
             return None, 'smooth raised %s' % r.get('err')
@@ -841,9 +1158,13 @@ def case_term(c, r):
 def history_steps(c, r):
     """the steps of a history as ordinary (call, result) pairs on the ORIGINAL values"""
     out = []
+    cur = c['x']
     for st, o in zip(c['steps'], r.get('steps', [])):
+        if st['f'] == 'mutate':
+            cur = st['x']          # the caller overwrote the array in place: later steps are judged on these values
+            continue
         ck = dict(st)
-        ck['x'] = c['x']
+        ck['x'] = cur
         ck['dtype'] = c.get('dtype', 'f8')
         if ck['f'] == 'uniq':
             ck['idx'] = None
@@ -856,7 +1177,8 @@ def signature(tag, c, r, verdict):
     what = 'property' if verdict & 2 else 'model'
     if not protected(r):
         what = ('argument-modified:' if not r.get('input_unchanged', True) else
-                'readonly-differs:' if not r.get('readonly_ok', True) else 'import-routes-differ:') + what
+                'readonly-differs:' if not r.get('readonly_ok', True) else
+                'global-state-changed:' if r.get('state_changed') else 'import-routes-differ:') + what
     if f == 'rebin':
         dt = c['dtype']
         kind = 'f' if dt in ('f8', 'f4') else ('u' if dt.startswith('u') else 'i')
@@ -899,6 +1221,19 @@ def correspond(ctx, proof_ok=True):
             results[bi + k * nb] = r
     ctx.coverage['pydl_file'] = outs[0]['pydl_file']
     ctx.coverage['numpy'] = outs[0]['numpy']
+    # process-global settings: snapshot before `import pydl` (third-party packages already loaded) vs after it, in every
+    # one of the fresh interpreters; and before the first call vs after the last
+    imp = sorted(set(k for o in outs for k in o.get('import_changed', [])))
+    end = sorted(set(k for o in outs for k in o.get('state_changed_at_end', [])))
+    ctx.coverage['global_state'] = {'interpreters': len(outs), 'changed_by_import': imp, 'changed_by_calls': end,
+                                    'watched': ['np.geterr', 'np.geterrcall', 'np.printoptions', 'warnings.filters', 'os.environ']}
+    if imp:
+        o = next(o for o in outs if o.get('import_changed'))
+        ctx.violation('C14:import:global-state:' + '+'.join(imp),
+                      '`import pydl` changes process-global settings %s: %s -> %s (data with non-finite samples then no longer '
+                      'give the IEEE result; see the nonfinite-* cases)' % (imp, o.get('state_before_import'), o.get('state_after_import')),
+                      {'kind': 'broken-correspondence', 'item': 'pydl/__init__.py import-time side effects', 'changed': imp,
+                       'before': o.get('state_before_import'), 'after': o.get('state_after_import')}, False)
     terms = []   # (call index, term)   -- a history contributes one term per step (hstep[len(terms)] = step number)
     direct = []
     checked_here = []      # calls decided on the Python side (3-D running median -> ValueError) or only observed
